@@ -40,4 +40,5 @@ def run(eng, ctx):
     # the wrong bits, so the layout's agreement with the standard's bit lengths and sibling relations is a shared obligation
     TR.lengths(eng, ctx, "C10.D5")
     TR.siblings(eng, ctx, "C10.D6")
+    TR.layouts(eng, ctx, "C10.D7")
     ctx.instance("definitions typed", sum(1 for _ in eng.tables.definitions()), 152)
